@@ -389,6 +389,10 @@ class VariableBoundVisitor(ModelVisitor):
                 bounds = self.bound_m[e.fm]
                 bounds.constrained = True
 #                bounds.add_propagator(self._propagator)
+            elif hasattr(e.fm, "field_l"):
+                # A reference to an object (e.g. the element through which
+                # a dynamic constraint is referenced) has no bounds itself
+                pass
             else:
                 raise Exception("Field " + e.fm.fullname + " not in map")
 
